@@ -870,6 +870,86 @@ func C19(p *an.Prog, r *an.Report) {
 	c19SharedCore(p, r, "key_certificate.NewKeyCertificate", "key_certificate.KeyCertificateFromCertificate", 1)
 	c19TwinSerializers(p, r)
 	c01Block(p, r, "C19.R1")
+	c19NoCallHistory(p, r)
+}
+
+// c19NoCallHistory (P1): what an entry point returns cannot depend on earlier calls. The library
+// keeps no package-level container that is filled at run time: no function calls a mutating method
+// (Store, LoadOrStore, Swap, CompareAndSwap, Delete, Put, Add) on a package-level variable or on
+// something reached from one, and no package-level variable has a sync/atomic container type. (A
+// memo cache makes two entry points that agree on every fresh process disagree after a colliding
+// key was cached; plain stores to package-level variables after init are C18.W3.)
+func c19NoCallHistory(p *an.Prog, r *an.Report) {
+	mutators := map[string]bool{"Store": true, "LoadOrStore": true, "LoadAndDelete": true, "Swap": true, "CompareAndSwap": true, "CompareAndDelete": true, "Delete": true, "Put": true, "Add": true, "Clear": true}
+	rootGlobal := func(v ssa.Value) *ssa.Global {
+		for i := 0; i < 8 && v != nil; i++ {
+			switch x := v.(type) {
+			case *ssa.Global:
+				return x
+			case *ssa.FieldAddr:
+				v = x.X
+			case *ssa.IndexAddr:
+				v = x.X
+			case *ssa.UnOp:
+				v = x.X
+			case *ssa.ChangeType:
+				v = x.X
+			default:
+				return nil
+			}
+		}
+		return nil
+	}
+	var bad []string
+	calls := 0
+	for _, fn := range p.RepoFns {
+		if !an.InLib(fn) || len(fn.Blocks) == 0 || fn.Name() == "init" {
+			continue
+		}
+		for _, b := range fn.Blocks {
+			for _, in := range b.Instrs {
+				c, ok := in.(*ssa.Call)
+				if !ok || len(c.Call.Args) == 0 {
+					continue
+				}
+				callee := c.Call.StaticCallee()
+				if callee == nil || callee.Signature.Recv() == nil {
+					continue
+				}
+				g := rootGlobal(c.Call.Args[0])
+				if g == nil || g.Pkg == nil || !an.IsLibPath(g.Pkg.Pkg.Path()) {
+					continue
+				}
+				calls++
+				pkg := an.FnPkgPath(callee)
+				if (pkg == "sync" || pkg == "sync/atomic") && mutators[callee.Name()] {
+					bad = append(bad, fmt.Sprintf("%s calls %s on package-level %s at %s", an.FnKey(fn), an.FnKey(callee), g.Name(), p.Pos(c.Pos())))
+				}
+			}
+		}
+	}
+	// container-typed package-level variables
+	for _, pkg := range p.SSA.AllPackages() {
+		if pkg.Pkg == nil || !an.IsLibPath(pkg.Pkg.Path()) {
+			continue
+		}
+		for _, m := range pkg.Members {
+			g, ok := m.(*ssa.Global)
+			if !ok {
+				continue
+			}
+			ts := an.Deref(g.Type()).String()
+			if strings.HasPrefix(ts, "sync.Map") || strings.HasPrefix(ts, "sync.Pool") || strings.HasPrefix(ts, "sync/atomic.") || strings.HasPrefix(ts, "atomic.") {
+				bad = append(bad, fmt.Sprintf("package-level %s.%s has container type %s", an.ShortPkg(pkg.Pkg.Path()), g.Name(), ts))
+			}
+		}
+	}
+	r.Analysed["method_calls_on_package_level_variables"] = calls
+	if calls < 10 {
+		r.Fail("C19.P1 canary: only %d method calls on package-level variables found (the loggers alone account for hundreds): the detector no longer sees them", calls)
+	}
+	sort.Strings(bad)
+	r.Check(len(bad) == 0, "C19.P1", "no-call-history", "-", "no entry point's result can depend on earlier calls: the library fills no package-level container at run time", bad...)
 }
 
 // c19BuilderState (K2): the certificate builder agrees with the direct constructors only if the
